@@ -113,7 +113,8 @@ def rule_z4(chk: Check, ix: Index):
     # the cache is filled exactly when no path is given
     pk = ix.get("Tokenizer.peek")
     fills = [n for n in own_nodes(pk.node) if isinstance(n, ast.If) and "not self._path" in norm_stmt(n.test)
-             and any("self._lines[" in norm_stmt(s) for s in n.body)]
+             and any("self._lines[" in norm_stmt(x) or "self._lines.setdefault(" in norm_stmt(x) for s in n.body for x in ast.walk(s)
+                     if isinstance(x, (ast.stmt, ast.Call)))]
     chk.count("Z4-line-source")
     chk.require(len(fills) == 1, "Z4-line-source", "Tokenizer.peek:cache-fill", pk.where,
                 "the per-line cache must be filled (only) in string mode")
